@@ -120,6 +120,18 @@ func ctl(f func()) {
 	}
 }
 
+// ctlTry is ctl for steps whose failure is a verdict about gocoin (reopening what a schedule left on disk).
+func ctlTry(f func()) string {
+	s := vsched.Run(f, func(string, int, string) int { return 0 }, 1<<30)
+	if s.Panic != "" {
+		return "panic: " + explore.Short(s.Panic, 160)
+	}
+	if s.Deadlock != "" {
+		return "deadlock: " + s.Deadlock
+	}
+	return ""
+}
+
 func buildPrefix(compressed bool) (p *chainx.Prefix) {
 	ctl(func() { p = buildPrefix0(compressed) })
 	return
@@ -457,7 +469,19 @@ func runScenario(p *chainx.Prefix, sc scen, blocks []*reftx.Block, choose vsched
 	s.E = nil
 	o := p.Opts
 	var e2 *minichain.Env
-	ctl(func() { e2 = minichain.Open(sDir(s)+"/d", &o) })
+	if died := ctlTry(func() { e2 = minichain.Open(sDir(s)+"/d", &o) }); died != "" || e2 == nil {
+		// what the schedule left on disk cannot be opened again
+		if errs == "" {
+			k := died
+			if i := strings.Index(k, " | "); i > 0 {
+				k = k[:i]
+			}
+			errs = "reopen-after-close-fails: " + k
+		}
+		s.Abandon()
+		ctl(s.Close)
+		return sch, obs + " | reopen failed", errs
+	}
 	s.E = e2
 	tip, _ := e2.Tip()
 	nd := s.M.Nodes[tip]
